@@ -164,8 +164,18 @@ PROPS["C05"] = dict(
     expect_entries=EXT_SINGLE + EXT_LISTS + EXT_TAGGED,
     thorough_mult=15,
 )
+DTLS_ENTRIES = ["parse_dtls_record_header", "parse_dtls_message_handshake", "parse_dtls_message_changecipherspec",
+                "parse_dtls_message_alert", "parse_dtls_plaintext_record", "parse_dtls_plaintext_records"]
+PROPS["C10"] = dict(
+    families=[("dtls", 500), ("dtlsmulti", 150)],
+    corpus_entries=DTLS_ENTRIES + ["parse_dtls_record_with_header"],
+    mutate_entries=DTLS_ENTRIES + ["parse_dtls_record_with_header"], mutate_budget=50, mutate_sources=500,
+    small_scope=[(e, [], 1, 4) for e in DTLS_ENTRIES] + [("parse_dtls_record_with_header", [ct, 65277, 0, 1, 4], 1, 3) for ct in (20, 21, 22, 23, 24, 0)],
+    expect_entries=DTLS_ENTRIES + ["parse_dtls_record_with_header"],
+    thorough_mult=15,
+)
 PROPS["C16"] = dict(
-    families=[("multi", 500)],
+    families=[("multi", 500), ("dtlsmulti", 300)],
     corpus_entries=["tls_parser_many", "tls_parser", "parse_tls_plaintext", "parse_dtls_plaintext_records"],
     mutate_entries=["tls_parser_many", "parse_dtls_plaintext_records"], mutate_budget=25, mutate_sources=150,
     small_scope=[("tls_parser_many", [], 1, 4), ("parse_dtls_plaintext_records", [], 1, 4), ("tls_parser", [], 1, 3)],
